@@ -30,6 +30,8 @@ import (
 	"strings"
 	"time"
 
+	"github.com/google/go-containerregistry/pkg/name"
+	"github.com/google/go-containerregistry/pkg/v1/tarball"
 	"github.com/google/osv-scalibr/artifact/image/layerscanning/image"
 	"github.com/google/osv-scalibr/artifact/image/require"
 	"github.com/google/osv-scalibr/artifact/image/unpack"
@@ -202,9 +204,10 @@ func perms(es []imgkit.Entry) [][]imgkit.Entry {
 // ---- variant models for attributing open findings ----
 
 // applyVariant: the spec model with some rules switched off.
-//   noOpaque: opaque markers are ignored.
-//   sequential: a whiteout listed before an entry at/below its path in the same layer also
-//               suppresses that entry (the implementation processes a layer in tar order).
+//
+//	noOpaque: opaque markers are ignored.
+//	sequential: a whiteout listed before an entry at/below its path in the same layer also
+//	            suppresses that entry (the implementation processes a layer in tar order).
 func applyVariant(m imgkit.Model, es []imgkit.Entry, noOpaque, sequential bool) imgkit.Model {
 	var kept []imgkit.Entry
 	present := map[string]bool{} // paths that exist in this layer so far (explicit or implied)
@@ -469,6 +472,9 @@ func compareView(fsys scalibrfs.FS, m imgkit.Model, universe []string, requiredO
 	return nil
 }
 
+// tarballUniverse is the probe set for the FromTarball phase (a superset of both tiers' universes).
+var tarballUniverse = []string{"a", "a/b", "a/b/c", "a/d", "e", "e/f"}
+
 type reqPaths struct{ p map[string]bool }
 
 func (r reqPaths) FileRequired(p string, _ fs.FileInfo) bool {
@@ -628,6 +634,42 @@ func squashCheck(c *caseT, base string) (key, detail string) {
 	}
 	dir, _ := os.MkdirTemp(base, "sq")
 	defer os.RemoveAll(dir)
+	// second construction of the same image: saved as a docker tarball and loaded by FromTarball
+	tb := filepath.Join(dir, "image.tar")
+	if ref, err := name.NewTag("verif/c04:latest"); err == nil {
+		if err := tarball.WriteToFile(tb, ref, rimg); err == nil {
+			img, err := image.FromTarball(tb, image.DefaultConfig())
+			if err != nil {
+				os.Remove(tb)
+				return "from-tarball-load-error", err.Error()
+			}
+			cls, _ := img.ChainLayers()
+			spec := modelsFor(c, false, false)
+			var mm *mismatch
+			vi := -1
+			if len(cls) == len(spec) {
+				for i, cl := range cls {
+					if m := compareView(cl.FS(), spec[i], tarballUniverse, nil); m != nil {
+						mm, vi = m, i
+						break
+					}
+				}
+			} else {
+				mm = &mismatch{"view-count", fmt.Sprintf("%d chain layers, expected %d", len(cls), len(spec))}
+			}
+			img.CleanUp()
+			if mm != nil {
+				// the directly built image must show the same mismatch (then it is reported there, under its own key)
+				if k, _ := runCase(c, tarballUniverse); k == "" {
+					os.Remove(tb)
+					return "from-tarball-differs-from-v1image:" + mm.kind, fmt.Sprintf("view %d: %s", vi, mm.detail)
+				}
+			}
+		}
+		os.Remove(tb)
+	}
+	os.Mkdir(filepath.Join(dir, "out"), 0o755)
+	dir = filepath.Join(dir, "out")
 	u, _ := unpack.NewUnpacker(unpack.DefaultUnpackerConfig())
 	if err := u.UnpackSquashed(dir, rimg); err != nil {
 		return "squash-error", err.Error()
@@ -866,5 +908,5 @@ func main() {
 	}
 	os.RemoveAll(base)
 	r.Assume("imgkit.Model.Apply (~60 lines) is the OCI image-spec change-set application: whiteouts act on lower layers only, then the layer's entries are added")
-	r.Finish(fmt.Sprintf("universe %v; entry kinds: file(2 contents/modes), dir, whiteout, opaque marker per path + 2 symlinks (%d options); layers = all well-formed sets of <=%d entries (%d); all 1- and 2-layer images, every entry order per layer (plain names), canonical order with './' and '/' name styles; for images where an upper layer touches a lower one: 5 history arrangements incl. empty layers at every position and a short history, missing config, requirer none/each path; squashed on-disk unpack for all pairs of single-entry layers; thorough adds all 3-layer images (<=%d,<=%d,1). Each view: Stat/Open+Read on every universe path + 2 absent paths, ReadDir of every directory, WalkDir. non-trivial = an upper-layer entry overlaps a lower-layer entry", universe, len(opts), maxEntries, len(sets), maxEntries, maxEntries), complete)
+	r.Finish(fmt.Sprintf("universe %v; entry kinds: file(2 contents/modes), dir, whiteout, opaque marker per path + 2 symlinks (%d options); layers = all well-formed sets of <=%d entries (%d); all 1- and 2-layer images, every entry order per layer (plain names), canonical order with './' and '/' name styles; for images where an upper layer touches a lower one: 5 history arrangements incl. empty layers at every position and a short history, missing config, requirer none/each path; squashed on-disk unpack AND a FromTarball load of the saved tarball for all pairs of single-entry layers; thorough adds all 3-layer images (<=%d,<=%d,1). Each view: Stat/Open+Read on every universe path + 2 absent paths, ReadDir of every directory, WalkDir. non-trivial = an upper-layer entry overlaps a lower-layer entry", universe, len(opts), maxEntries, len(sets), maxEntries, maxEntries), complete)
 }
